@@ -70,6 +70,15 @@ func (s *restServer) alive() bool {
 		}
 	}
 	c.Close()
+	// "keeps serving": a listener that accepts but never answers (a handler died holding the server
+	// mutex) is not alive
+	probe := &http.Client{Timeout: 5 * time.Second}
+	resp, err := probe.Get("http://" + s.addr + "/api/v1/collections")
+	if err != nil {
+		return false
+	}
+	io.Copy(io.Discard, resp.Body)
+	resp.Body.Close()
 	return true
 }
 
